@@ -179,6 +179,10 @@ def get_units():
         us.append(Unit('C05/fc%02d' % fc, lem, ['C05'], contracts=CONTRACTS, functions=[M.REQ[fc] + '.execute', M.REQ[fc] + '.decode', DEC + '._helper']))
     us.append(Unit('C05/illegal_function', illegal_function_lemma, ['C05'], contracts=CONTRACTS,
                    functions=[DEC + '._helper', 'pymodbus.pdu.IllegalFunctionRequest.execute']))
+    # "a datastore failure during execution yields 04": decided where the failure is caught, in execute() of every front-end
+    from . import serve as SV
+    for fe in SV.FRONTENDS:
+        us.append(Unit('C05/failure.%s' % fe, SV.serve_unicast(fe, 'C05', clauses=('failure',)), ['C05'], functions=SV.FUNCS[fe]))
     for c in S.STORE_CONTRACTS + S.SLAVE_CONTRACTS + (K.UnpackBitstring(), K.WMRegsDecode(), K.RWMRegsDecode()):
         us.append(c.unit())
     return us
